@@ -116,6 +116,7 @@ impl ClientPlan {
                 status_codes: 0,
                 intermediate_timeout: None,
                 script_order: 0,
+                decorated: 0,
             },
             init: ConfigureOutcome::plain(),
             ops,
